@@ -21,7 +21,7 @@
    full-stack runs of this property's check treat every fault-free signing failure as a violation.
    The safety clauses (identical material, signatures verify) are proved without exception. *)
 From Coq Require Import List ZArith.
-Require Import TSS.Base.Base TSS.Alg.DKG TSS.Alg.DKGSystem TSS.Corr.DKGCorr.
+Require Import TSS.Base.Base TSS.Alg.ZrModel TSS.Alg.DKG TSS.Alg.DKGSystem TSS.Corr.DKGCorr.
 Require TSS.Orch.SessionFacts TSS.RBC.Totality TSS.Box.Handoff.
 From mathcomp Require Import all_ssreflect all_algebra.
 Require Import TSS.Alg.SSS TSS.Alg.BLS TSS.Alg.DKGAlg.
@@ -71,6 +71,19 @@ Proof. move=> G1 GT e el er p h pts; exact: (C01_sign g sm el er). Qed.
 End Algebra.
 Print Assumptions C01_dkg_honest_alg.
 Print Assumptions C01_sign.
+
+(* Which points the code uses.  In C01_dkg_honest_alg / C01_sign the party "x" is the RANK of a participant in the session's
+   sorted participant list (x = 1..n, evaluation point pt x): TBLS.Init sets id = position + 1, localGen evaluates at 1..n,
+   assembleThresholdPublicKey and bls.Verifier (parties2EvalPoints[identifier] = rank) interpolate at ranks.  Identifiers
+   and ranks coincide only when the participants are exactly 1..n; the check runs participant sets with gaps, not starting
+   at 1 and at the 16-bit boundary.  Interpolating at identifiers instead is wrong as soon as they differ: participants
+   {1,2,4}, p = 5 + 3x, signers with identifiers 1 and 4 (ranks 1 and 3) -- by computation on the executable model: *)
+Theorem C01_identifier_points_refuted :
+  gen_shares [:: 5; 3]%ZZ 3 = [:: 8; 11; 14]%ZZ /\
+  combine2 8 14 1 3 = Ok 5%ZZ /\
+  combine2 8 14 1 4 = Ok 6%ZZ.
+Proof. exact: identifier_points_refuted. Qed.
+Print Assumptions C01_identifier_points_refuted.
 
 (* (1), (2): the theorems of the other engines this property composes with (re-exported, not re-proved) *)
 Definition C01_uses_sessions_no_residue := @TSS.Orch.SessionFacts.no_residue.
